@@ -14,7 +14,7 @@
    Resolve error), otherwise returns the first Fatal among its dependencies' results or the
    value F(k, version[k], dependency values).
 
-   A "case" cfg = [bat, pan, par, plan] is chosen in Init and never changes; plan is a
+   A "case" cfg = [id, bat, pan, par, plan] is chosen in Init and never changes; plan is a
    history of operations  [op |-> "run", roots |-> <<roots of run 1, roots of run 2, ...>>]
    (the runs of one step are concurrent) and [op |-> "evict", keys |-> K, conc |-> BOOLEAN].
 
@@ -119,7 +119,7 @@ OracleFrom(c, st, i) ==
        IN <<n.e>> \o OracleFrom(c, [lo |-> n.lo, hi |-> n.hi, vr |-> n.vr], i + 1)
 Oracle(c) == OracleFrom(c, [lo |-> {}, hi |-> {}, vr |-> [k \in Nodes |-> 0]], 1)
 (* evaluated once per case by TLC (constant-level definition); trace validation computes it on demand *)
-ExpTable == [c \in Cases |-> Oracle(c)]
+ExpTable == [i \in {c.id : c \in Cases} |-> Oracle(CHOOSE c \in Cases : c.id = i)]
 
 -----------------------------------------------------------------------------
 (* Activations *)
@@ -563,13 +563,14 @@ Step == OpBegin \/ EvictCollect \/ EvictApply \/ \E i \in DOMAIN acts : ActNext(
 Next == Step \/ Finished
 
 Spec == Init /\ [][Next]_vars
+SimSpec == Init /\ [][Step]_vars       \* for tlc -simulate: a behaviour ends when the history is done
 FairSpec == Spec /\ WF_vars(Step)
 
 -----------------------------------------------------------------------------
 (* Properties.  Quiescent: no call in progress and no goroutine of the executor alive. *)
 Quiet == RunsDone /\ ev.pc = "idle" /\ DOMAIN acts = {}
 Memo == {k \in Nodes : res[k] = "done"}
-exp == IF cfg \in Cases THEN ExpTable[cfg] ELSE Oracle(cfg)
+exp == IF cfg.id > 0 THEN ExpTable[cfg.id] ELSE Oracle(cfg)    \* id = 0: a case read from a trace header
 ExpNow == exp[step]
 
 TypeOK ==
